@@ -6,6 +6,7 @@ from concurrent.futures import ThreadPoolExecutor as _Pool
 def _gatt_driver_obj(chk, fuzz):
     """the generic driver (reference model + rapidcheck / libFuzzer entry) does not include repo headers: built once per /verif state"""
     root = chk.ROOT
+    # line tables only: the full debug info of two dozen declarations (template names of several kB each) overflows .debug_str at link time
     flags = list(chk.BASE_FLAGS) + list(chk.SAN_FLAGS) + (['-fsanitize=fuzzer-no-link', '-DVG_FUZZ'] if fuzz else [])
     bdir = _os.path.join(chk.CACHE, 'build')
     _os.makedirs(bdir, exist_ok=True)
@@ -47,7 +48,7 @@ def _gatt_builder(t, chk):
     replay = chk.CURRENT.get('replay')
     exclude = tuple(x for x in chk.CURRENT.get('exclude', '').split(',') if x)
     fuzz = bool(t.get('fuzz'))
-    flags = list(chk.BASE_FLAGS) + list(chk.SAN_FLAGS) + (['-fsanitize=fuzzer-no-link', '-DVG_FUZZ'] if fuzz else [])
+    flags = [f if f != '-g' else '-gline-tables-only' for f in chk.BASE_FLAGS] + list(chk.SAN_FLAGS) + (['-fsanitize=fuzzer-no-link', '-DVG_FUZZ'] if fuzz else [])
     bdir = _os.path.join(chk.CACHE, 'build')
     _os.makedirs(bdir, exist_ok=True)
 
